@@ -1,7 +1,7 @@
-\* FASTA and FASTQ: files of 1-2 records over 5 adversarial shapes, every buffer size 2..Len+1
+\* GenBank and EMBL: files of 1-2 entries over 5 shapes (with/without taxon, with/without organism, CR LF), every buffer size
 CONSTANTS
-  Fmts = {"fasta", "fastq"}
-  Sel <- SelQuick
+  Fmts = {"genbank", "embl"}
+  Sel <- SelFlatThorough
   Big = FALSE
   MaxRecs = 2
   FinalEols = {TRUE, FALSE}
